@@ -125,13 +125,11 @@ func (w *worker) runPath(j *job, it *workItem) {
 			}
 		}()
 	}
+	in.teardownSched()
 	in.solver.Pop()
 	in.rollback()
 	in.logging = false
 	in.path = nil
-	if in.sched != nil {
-		in.sched = nil
-	}
 
 	j.mu.Lock()
 	j.paths++
